@@ -12,6 +12,7 @@ PROP = 'C02'
 TRUSTED = c06.TRUSTED + [
     'hand-written model coq/Model/Ensemble.v (enqueue/dequeue threads, catalog keyed by request id, member stand-ins); the real EnsembleServlet runs under the scheduler over member stand-ins with a logging catalog dict and is replayed event by event, also with ids reused after their request was answered (model validation only)',
     'full-stack runs: the real Server over real ThreadServlet/SequentialServlet/EnsembleServlet/SwitchServlet trees with real Workers (batch sizes 0, 1, 3) execute under the deterministic scheduler with an id() allocator oracle that reuses the id of a dead future at once; outcomes are compared with the sequential meaning of the tree (oracle; these runs are not replayed in a Coq model)',
+    __import__('harness.scen_procstack', fromlist=['PROC_TRUSTED']).PROC_TRUSTED,
 ]
 ASSUME = [
     'the theorem covers the Server layer (callers, ledger, gather) over an abstract servlet with ids unique while in flight; the servlet compositions themselves are covered by scheduled exploration + oracle only',
@@ -94,6 +95,7 @@ def parts():
                   lambda r: r['cfg']['tree']['t'] != 'leaf' and sum(len(c['xs']) for c in r['cfg']['callers']) >= 2,
                   key=lambda r: json.dumps(r['cfg'], sort_keys=True) + str(r['decisions'][:80]),
                   describe=lambda r: {k: r.get(k) for k in ('cfg', 'strategy', 'verdict', 'cycles', 'blocked')}),
+        __import__('harness.scen_procstack', fromlist=['part']).part(5, 40, calls_only=True),
     ]
 
 
